@@ -86,3 +86,103 @@ def t_year_to_year(y1: int, y2: int):
                id(P.config.year_regex): [FakeMatch({'year': 'Y1'}, text='Y1'), FakeMatch({'year': 'Y2'}, text='Y2', start=3)]}
     r = P._parse_year_to_year('x', datetime(2016, 11, 7))
     assert not r.success
+
+
+# ---- Chinese time periods: ChineseTimePeriodParser.parse_time_period / build_timex / build_span ----------------------------------------------------
+from recognizers_date_time.date_time.chinese.timeperiod_parser import ChineseTimePeriodParser  # noqa: E402
+from recognizers_date_time.date_time.chinese.timeperiod_extractor import TimePeriodType  # noqa: E402
+from recognizers_date_time.date_time.chinese.base_date_time_extractor import DateTimeExtra, TimeResult  # noqa: E402
+from lib.symx import assume  # noqa: E402
+
+_ZTP = sys.modules[DT + 'chinese.timeperiod_parser']
+env.assert_repo(_ZTP)
+if ENGINE == 'sx':
+    for _n, _v in (('datetime', symdate.sdatetime), ('timedelta', symdate.stimedelta)):
+        if hasattr(_ZTP, _n):
+            setattr(_ZTP, _n, _v)
+TPP = ChineseTimePeriodParser()
+FIELDS = sl('fields', 2)          # 1: hours only, 2: hours and minutes, 3: with seconds
+LB1 = sl('lb1', -1)               # low bound the time parser reports for the left / right time: -1 no day-part word, 0 a word without a window, 12 / 18 ...
+LB2 = sl('lb2', -1)
+
+
+class _TimeStub:
+    results = {}
+
+    def parse(self, er, reference=None):
+        class R:
+            pass
+        r = R()
+        r.data = self.results[er.text]
+        return r
+
+
+_TS = _TimeStub()
+TPP.config._time_parser = _TS
+if not hasattr(type(TPP.config), '_patched_tp'):
+    type(TPP.config).time_parser = property(lambda self: _TS)
+    type(TPP.config)._patched_tp = True
+
+
+def h_zh_time_period(h1: int, m1: int, s1: int, h2: int, m2: int, s2: int):
+    """two clock times as the Chinese time parser reports them (hour already shifted by its own day-part word, low bound recorded): the period's TIMEX is
+    (T<start>,T<end>,<span>) with the clock times of the resolved start / end, and the span is end - start (the end may lie on the next day)"""
+    assert 0 <= h1 <= 23 and 0 <= m1 <= 59 and 0 <= s1 <= 59 and 0 <= h2 <= 23 and 0 <= m2 <= 59 and 0 <= s2 <= 59
+    assert (LB1 <= 0 or h1 >= LB1) and (LB2 <= 0 or h2 >= LB2)          # a time under a day-part window lies in that window
+    digits.reset()
+    digits.SEMANTIC_MERGE[0] = False
+    if FIELDS < 3:
+        assume(s1 == 0 and s2 == 0)
+    if FIELDS < 2:
+        assume(m1 == 0 and m2 == 0)
+    left = TimeResult(h1, m1 if FIELDS >= 2 else -1, s1 if FIELDS >= 3 else -1, LB1)
+    right = TimeResult(h2, m2 if FIELDS >= 2 else -1, s2 if FIELDS >= 3 else -1, LB2)
+    _TS.results = {'L': left, 'R': right}
+    extra = DateTimeExtra()
+    extra.data_type = TimePeriodType.FullTime
+    extra.named_entity = {'left': ['L'], 'right': ['R']}
+    extra.match = FakeMatch({}, text='L-R')
+    eh2 = h2 + 12 if (LB2 == -1 and LB1 != -1 and h2 <= LB1) else h2          # an unmarked end after a marked start stays in the start's half of the day
+    assume(eh2 < 24 or (eh2 == 24 and m2 == 0 and s2 == 0))          # 24:00 is the only clock time with hour 24
+    r = TPP.parse_time_period(extra, datetime(2016, 11, 7, 7, 30))
+    assert r.success
+    b, e = r.future_value
+    assert r.past_value[0] == b and r.past_value[1] == e
+    assert (b.hour, b.minute, b.second) == (h1, m1, s1), ('start', r.timex)
+    assert (e.hour, e.minute, e.second) == (eh2 - 24 if eh2 == 24 else eh2, m2, s2), ('end', r.timex)
+    t1 = h1 * 3600 + m1 * 60 + s1
+    t2 = eh2 * 3600 + m2 * 60 + s2
+    assume(t1 != t2)
+    want_span = t2 - t1 if t2 > t1 else t2 - t1 + 86400
+    j = digits._join(digits._norm(digits.decode(r.timex)))
+    # split the decoded TIMEX at its two top-level commas
+    parts, cur = [], []
+    for it in j:
+        if isinstance(it, str):
+            for ch in it:
+                if ch == ',':
+                    parts.append(cur)
+                    cur = []
+                elif ch not in '()':
+                    cur.append(ch)
+        else:
+            cur.append(it)
+    parts.append(cur)
+    assert len(parts) == 3, ('timex shape', r.timex)
+
+    def clock(pc):
+        assert pc and pc[0] == 'T', pc
+        nums = [x[0] for x in pc if not isinstance(x, str)]
+        return nums + [0] * (3 - len(nums))
+    c1, c2 = clock(parts[0]), clock(parts[1])
+    assert c1 == [h1, m1, s1] and c2 == [eh2, m2, s2], ('TIMEX clock times differ from the resolved start / end', r.timex)
+    sp = parts[2]
+    assert sp[:2] == ['P', 'T'], ('span', r.timex)
+    tot, k = 0, 2
+    while k < len(sp):
+        assert not isinstance(sp[k], str) and k + 1 < len(sp) and sp[k + 1] in ('H', 'M', 'S'), ('span', r.timex)
+        tot = tot + sp[k][0] * {'H': 3600, 'M': 60, 'S': 1}[sp[k + 1]]
+        k += 2
+    assert tot == want_span, ('end minus start differs from the duration', r.timex)
+    if eh2 < 24:          # (hour 24 has no datetime: build_date falls back to the min-value date; only the clock time is rendered)
+        assert b < e and (e - b).total_seconds() == want_span, ('resolved end minus start differs from the span', r.timex)
